@@ -131,6 +131,7 @@ func genC11(tier string, rng *Rng) {
 		n = 400000
 	}
 	genReqWrite(rng, n/2)
+	genReqMp(rng, n/20)
 	for i := 0; i < n; i++ {
 		wf := rng.Intn(4) != 0
 		s := genResponse(rng, wf)
